@@ -93,6 +93,12 @@ func c04(r *core.Run) {
 		r.Rule("R12", "no queued request is dropped or handled twice inside a group (shared with C02.Q1 / Q2): a work item's callback queue is only ever tail-appended with the submitted callback and read by len / index in the drain loop, whose counter starts at 0, is compared with the re-loaded length and advances by one per call; a drain that re-slices the queue while callbacks are still being read from its backing array lets a later append overwrite a pending request's callback (never answered) with another one (answered twice)", 6)
 		c02GroupQueue(r, "R12", sa, root)
 		c02Drain(r, "R12", sa)
+		r.Rule("R13", "somebody answers (shared with C03.S4): the number of workers serve starts is at least one - every store to the worker-count member writes a positive constant or a value tested to be positive; with zero workers every request is queued and never handled", 2)
+		if af, ok := workerCountField(p, sa); ok {
+			c03WorkerCountPositive(r, "R13", af)
+		} else {
+			r.Unres("R13", "worker-count-member", "serve does not hand a member to WaitGroup.Add")
+		}
 	}
 	coveringRule(r, "R8")
 	c04NoBoundsPanic(r)
